@@ -100,6 +100,16 @@ pub fn run_sqlhist(inp: &mut dyn BufRead, out: &mut dyn Write) {
                         h = SQLiteHistory::open(cfg(max, cur.0, cur.1), &path).expect("reopen2");
                         "u".into()
                     }
+                    "load" => {
+                        // a history made without a file, then pointed at the database with History::load: the same
+                        // as opening that file (load with the object's own path does nothing at all)
+                        drop(h);
+                        h = SQLiteHistory::with_config(cfg(max, cur.0, cur.1)).expect("with_config");
+                        match h.load(&path) {
+                            Ok(()) => "u".into(),
+                            Err(_) => "err".into(),
+                        }
+                    }
                     "reopen" => {
                         drop(h);
                         h = SQLiteHistory::open(cfg(max, cur.0, cur.1), &path).expect("reopen");
